@@ -6,6 +6,7 @@
 -/
 import SimVerif.Basic
 import SimVerif.HttpServer
+import SimVerif.HttpProxy
 
 namespace SimVerif.Drv
 
@@ -15,8 +16,27 @@ structure HttpInst where
   srv     : HttpServer.Srv := {}
   wrClose : Bool := false          -- the `close` argument bound into the pending `on_write`
 
+/-- which callback of `http_proxy` a handler id stands for -/
+inductive PxCb where
+  | accept | readReq (off : Nat) | lookup | connected | serverWrite | serverRecv | serverFwd | errWritten
+  deriving DecidableEq, Repr
+
+/-- one `sim::http_proxy` object of a scenario (`x<k>`) -/
+structure PxInst where
+  node : String
+  px   : SimVerif.HttpProxy.Px := {}
+  dead : Bool := false            -- destroyed: a callback that still arrives runs on freed memory
+
+/-- the HTTP proxies of a scenario: objects, outstanding operations (handler id ↦ object, callback),
+    number of handler ids handed out -/
+structure PxExt where
+  objs : List (String × PxInst) := []
+  ops  : List (Nat × String × PxCb × Nat) := []      -- handler id ↦ (object, callback, session bound)
+  next : Nat := 0
+
 structure ExtSt where
   unused : Unit := ()
   http : List (String × HttpInst) := []      -- HTTP test servers `w<k>` (Drv/HttpSrv.lean)
+  proxy : PxExt := {}                         -- HTTP test proxies `x<k>` (Drv/ProxySrv.lean)
 
 end SimVerif.Drv
